@@ -1,6 +1,6 @@
 SPECIFICATION Spec
 CONSTANTS
-  NCalls = 21
+  NCalls = 24
   MaxLen = 3
 INVARIANT ModesRestored
 INVARIANT NoLeak
